@@ -19,7 +19,9 @@ type Option func(m *ServeMux)
 // of the payload.
 func IQ(typ stanza.IQType, payload xml.Name, h IQHandler) Option {
 	return func(m *ServeMux) {
-		if h == nil {
+		// A nil func converted to the handler interface is not a nil interface,
+		// but it is no handler either.
+		if f, isFunc := h.(IQHandlerFunc); h == nil || (isFunc && f == nil) {
 			panic("mux: nil IQ handler")
 		}
 		pat := pattern{Stanza: iqStanza, Payload: payload, Type: string(typ)}
@@ -47,7 +49,9 @@ func IQFunc(typ stanza.IQType, payload xml.Name, h IQHandlerFunc) Option {
 // Message returns an option that matches message stanzas by type.
 func Message(typ stanza.MessageType, payload xml.Name, h MessageHandler) Option {
 	return func(m *ServeMux) {
-		if h == nil {
+		// A nil func converted to the handler interface is not a nil interface,
+		// but it is no handler either.
+		if f, isFunc := h.(MessageHandlerFunc); h == nil || (isFunc && f == nil) {
 			panic("mux: nil message handler")
 		}
 		pat := pattern{Stanza: msgStanza, Payload: payload, Type: string(typ)}
@@ -75,7 +79,9 @@ func MessageFunc(typ stanza.MessageType, payload xml.Name, h MessageHandlerFunc)
 // Presence returns an option that matches presence stanzas by type.
 func Presence(typ stanza.PresenceType, payload xml.Name, h PresenceHandler) Option {
 	return func(m *ServeMux) {
-		if h == nil {
+		// A nil func converted to the handler interface is not a nil interface,
+		// but it is no handler either.
+		if f, isFunc := h.(PresenceHandlerFunc); h == nil || (isFunc && f == nil) {
 			panic("mux: nil presence handler")
 		}
 		pat := pattern{Stanza: presStanza, Payload: payload, Type: string(typ)}
@@ -133,7 +139,9 @@ func Ident(iter info.IdentityIter) Option {
 // panics.
 func Handle(n xml.Name, h xmpp.Handler) Option {
 	return func(m *ServeMux) {
-		if h == nil {
+		// A nil func converted to the handler interface is not a nil interface,
+		// but it is no handler either.
+		if f, isFunc := h.(xmpp.HandlerFunc); h == nil || (isFunc && f == nil) {
 			panic("mux: nil handler")
 		}
 		if stanza.Is(n, "") {
